@@ -264,15 +264,19 @@ func enum(tier string) []Input {
 	}
 	out = append(out, Input{Bytes: []int{}, Levels: []int{0, 10}, Times: []int64{0, -1}})
 	if tier == "thorough" {
-		for l := 1; l <= 5; l++ {
+		// exhaustive: length <= 4 over all 12 symbols, 5 over 8, 6 over 6, 7 and 8 over 5 symbols (7, 8 strided);
+		// one case costs ~20 ms of coqc (parsing the dump), which bounds the scope at ~150k strings
+		for l := 1; l <= 4; l++ {
 			enumOver(small, l, add(1))
 		}
-		// { } = , space a __name__
-		a7 := [][]int{small[0], small[1], small[2], small[3], small[5], small[7], small[11]}
-		enumOver(a7, 6, add(1))
+		// { } = , space a _ __name__
+		a8 := [][]int{small[0], small[1], small[2], small[3], small[5], small[7], small[9], small[11]}
+		enumOver(a8, 5, add(1))
+		a6 := [][]int{small[0], small[1], small[2], small[3], small[7], small[11]}
+		enumOver(a6, 6, add(1))
 		a5 := [][]int{small[0], small[1], small[2], small[3], small[7]}
-		enumOver(a5, 7, add(1))
-		enumOver(a5, 8, add(7))
+		enumOver(a5, 7, add(3))
+		enumOver(a5, 8, add(17))
 	} else {
 		for l := 1; l <= 3; l++ {
 			enumOver(small, l, add(1))
@@ -431,5 +435,5 @@ func gen(r *rand.Rand, idx int, tier string) Input {
 }
 
 func main() {
-	lib.Main(lib.Harness[Input]{Prop: "C15", Quick: 1200, Thorough: 40000, Gen: gen, Enum: enum, Run: run})
+	lib.Main(lib.Harness[Input]{Prop: "C15", Quick: 1200, Thorough: 12000, Gen: gen, Enum: enum, Run: run})
 }
